@@ -2,6 +2,7 @@
    One request = one S-expression (op arg ...); one response = one S-expression. *)
 From Coq Require Import String.
 From Torf Require Import Base Sexp Bencode PyVal Geometry Stream History Convert Validate Export MonList Filesize Regex UrlQuote Magnet Attr Tree Reuse.
+From Torf Require Pipeline.
 Open Scope Z_scope.
 
 Definition getFile (s : sexp) : option file := getPair getZ getZ s.
@@ -599,6 +600,74 @@ Definition handle_reuse (op : list N) (args : list sexp) : option sexp :=
     | _ => None end
   else None.
 
+(* ---- pipeline (C03 C04 C12 C02) ---- *)
+Definition getRev (s : sexp) : option Pipeline.rev :=
+  match s with
+  | L [A tag; x] => if atom_is "exc" tag then option_map Pipeline.RExc (getZs x)
+                    else match getZ x with
+                         | Some z => if atom_is "piece" tag then Some (Pipeline.RPiece z)
+                                     else if atom_is "fail" tag then Some (Pipeline.RFail z) else None
+                         | None => None end
+  | L [A tag] => if atom_is "none" tag then Some Pipeline.RNone else if atom_is "oom" tag then Some Pipeline.ROom else None
+  | _ => None end.
+
+Definition getPlan (s : sexp) : option Pipeline.cbplan :=
+  match s with
+  | A a => if atom_is "absent" a then Some Pipeline.CbAbsent else if atom_is "quiet" a then Some Pipeline.CbQuiet else None
+  | L [A tag; k] => match getZ k with
+                    | Some k => if atom_is "cancel" tag then Some (Pipeline.CbCancelFrom k) else if atom_is "raise" tag then Some (Pipeline.CbRaiseFrom k) else None
+                    | None => None end
+  | _ => None end.
+
+Definition getOptZs (s : sexp) : option (option (list Z)) :=
+  match s with
+  | A a => if atom_is "none" a then Some None else None
+  | _ => option_map Some (getZs s) end.
+
+Definition getConfig (s : sexp) : option Pipeline.config :=
+  match s with
+  | L [items; total; hashers; interval; plan; verify; refuse] =>
+      match getList getRev items, getZ total, getZ hashers, getZ interval, getPlan plan, getOptZs verify, getZs refuse with
+      | Some items, Some total, Some hashers, Some interval, Some plan, Some verify, Some refuse =>
+          Some {| Pipeline.cf_items := items; Pipeline.cf_total := total; Pipeline.cf_hashers := Z.to_nat hashers; Pipeline.cf_interval := interval;
+                  Pipeline.cf_plan := plan; Pipeline.cf_verify := verify; Pipeline.cf_refuse := refuse |}
+      | _, _, _, _, _, _, _ => None end
+  | _ => None end.
+
+Definition getChoice (s : sexp) : option (Z * Pipeline.alt * Z) :=
+  match s with
+  | L [t; A a; inc] => match getZ t, getZ inc with
+                       | Some t, Some inc => if atom_is "go" a then Some (t, Pipeline.AGo, inc) else if atom_is "timeout" a then Some (t, Pipeline.ATimeout, inc) else None
+                       | _, _ => None end
+  | _ => None end.
+
+Definition optZ_s (o : option Z) : sexp := match o with Some z => ZA z | None => Sy "none" end.
+
+Definition result_sexp (r : option Pipeline.result) : sexp :=
+  match r with
+  | None => Sy "running"
+  | Some Pipeline.ResTrue => Sy "true" | Some Pipeline.ResFalse => Sy "false"
+  | Some (Pipeline.ResRaise e) => L [Sy "raise"; ZA e] | Some (Pipeline.ResRuntimeError e) => L [Sy "runtime"; ZA e]
+  end.
+
+Definition handle_pipe (op : list N) (args : list sexp) : option sexp :=
+  if atom_is "pipe.run" op then
+    match args with
+    | [c; sched] =>
+        match getConfig c, getList getChoice sched with
+        | Some c, Some sched =>
+            let '(s, rest, lft) := Pipeline.run_obs c (Pipeline.init c) sched None in
+            Some (L [ZA (Z.of_nat (List.length rest)); result_sexp (Pipeline.s_result s);
+                     match lft with Some l => ZL l | None => Sy "none" end;
+                     ZL (Pipeline.sorted_hashes (Pipeline.s_hashes s));
+                     L (List.map (fun x : Z * Z * option Z => L [ZA (fst (fst x)); ZA (snd (fst x)); optZ_s (snd x)]) (Pipeline.s_calls s));
+                     ZL (Pipeline.running_threads c s);
+                     L (List.map (fun o : Z * Pipeline.alt => L [ZA (fst o); match snd o with Pipeline.AGo => Sy "go" | Pipeline.ATimeout => Sy "timeout" end]) (Pipeline.options c s));
+                     ZL (Pipeline.s_seen s)])
+        | _, _ => None end
+    | _ => None end
+  else None.
+
 Definition handle (req : sexp) : sexp :=
   match req with
   | L (A op :: args) =>
@@ -628,7 +697,11 @@ Definition handle (req : sexp) : sexp :=
                                   | None =>
                                       match handle_reuse op args with
                                       | Some r => r
-                                      | None => bad_request
+                                      | None =>
+                                          match handle_pipe op args with
+                                          | Some r => r
+                                          | None => bad_request
+                                          end
                                       end
                                   end
                               end
